@@ -1,6 +1,7 @@
 package rules
 
 import (
+	"sort"
 	"go/ast"
 	"go/token"
 	"go/types"
@@ -824,6 +825,59 @@ func c12R2(p *core.Program, r *core.Report) {
 		}
 	}
 	r.Check(okKey, rule, f, "lookup key is position.Line + delta", f.Node().Pos(), "fileLine{Filename, Line + delta}", "the lookup key is not Line + delta")
+	// both ends take (file name, line) from the same mapping of positions: the index is keyed by what the builder's
+	// mapping answers, the lookup must ask the same one (FileSet.Position follows //line directives, PositionFor(p, false)
+	// and File.Line do not: below a directive the two disagree and no comment is found)
+	if np := p.FuncByName("pkg/types", "newPkg"); np != nil {
+		var builder []string
+		if kf := keyFunc(p, np); kf != nil {
+			builder = positionMappings(p, kf, 0)
+		}
+		if len(builder) == 0 {
+			builder = positionMappings(p, np, 0)
+		}
+		lookup := positionMappings(p, f, 0)
+		same := len(builder) == 1 && len(lookup) == 1 && builder[0] == lookup[0]
+		r.Check(same, rule, f, "builder and lookup of the comment index map positions the same way", f.Node().Pos(), "both use "+strings.Join(builder, ", "),
+			"the comment index is built with {"+strings.Join(builder, ", ")+"} and consulted with {"+strings.Join(lookup, ", ")+"}: where the two mappings differ (below a //line directive) the doc and trailing comments of a declaration are not found")
+	}
+}
+
+// positionMappings: the ways a function turns a token.Pos into a token.Position (or a line of a token.File), looked
+// through the package's own one-expression accessors: "(*go/token.FileSet).Position", "(*go/token.FileSet).PositionFor(false)" ...
+func positionMappings(p *core.Program, f *core.Func, depth int) []string {
+	if f == nil || f.Body == nil || depth > 3 {
+		return nil
+	}
+	info := f.Info()
+	set := map[string]bool{}
+	for _, c := range core.Calls(f.Body, true) {
+		name := core.CalleeName(info, c)
+		t := info.TypeOf(c)
+		isPos := t != nil && core.NamedTypeName(t) == "go/token.Position"
+		isLine := name == "(*go/token.File).Line" || name == "(*go/token.File).Name" || name == "(*go/token.File).PositionFor" || name == "(*go/token.File).Position"
+		if !isPos && !isLine {
+			continue
+		}
+		if h := p.FuncOfObj(core.CalleeFunc(info, c)); h != nil && h.Body != nil && h.Pkg == f.Pkg {
+			for _, m := range positionMappings(p, h, depth+1) {
+				set[m] = true
+			}
+			continue
+		}
+		for _, a := range c.Args[min(1, len(c.Args)):] {
+			if tv, ok := info.Types[a]; ok && tv.Value != nil {
+				name += "(" + tv.Value.String() + ")"
+			}
+		}
+		set[name] = true
+	}
+	var out []string
+	for m := range set {
+		out = append(out, m)
+	}
+	sort.Strings(out)
+	return out
 }
 
 // exactlyOnePerIteration checks that every path through one iteration of a
